@@ -5,6 +5,7 @@ equal keys keep input order), plus metamorphic relations (reverse = exact revers
 of batch_size; independent of crossing the in-memory cache)."""
 import copy
 import decimal
+import datetime
 import fractions
 
 from hypothesis import strategies as st
@@ -46,6 +47,11 @@ def numbers():
     )
 
 
+PAYLOAD = [None, 'x', 7, decimal.Decimal('1.50'), datetime.datetime(2001, 2, 3, 4, 5, 6, 789012),
+           datetime.datetime(2001, 2, 3, 4, 5, 6, tzinfo=datetime.timezone(datetime.timedelta(hours=-3, minutes=-30))),
+           datetime.time(1, 2, 3, 456789), datetime.date(987, 6, 5), datetime.date(2020, 2, 29), [1, [2, 'é']], {'k': [None, 1.5]},
+           datetime.timedelta(days=1, seconds=2, microseconds=3), True, 2 ** 70, 1e-7]
+
 KEYS = [
     ('list', ['n1']), ('list', ['s']), ('list', ['n1', 'n2']), ('list', ['n1', 's']), ('list', ['n1', 'n2', 's']),
     ('tuple', ['n2', 's']),
@@ -70,8 +76,13 @@ def small_case(draw):
     else:
         rows = [{'n1': draw(st.sampled_from(pool_n1)), 'n2': draw(st.sampled_from(pool_n2)),
                  's': draw(st.sampled_from(pool_s)), 'i': draw(st.integers(0, 9999))} for _ in range(n)]
+    # a payload column (never part of the key) with values a lossy intermediate encoding would change
+    for r in rows:
+        r['pl'] = draw(st.sampled_from(PAYLOAD))
     return {'size': 'small', 'kind': kind, 'spec': spec, 'rows': rows,
-            'batch': draw(st.sampled_from([1, 2, 7, 1000])), 'batch2': draw(st.sampled_from([1, 2, 7, 1000]))}
+            'batch': draw(st.sampled_from([1, 2, 7, 1000])), 'batch2': draw(st.sampled_from([1, 2, 7, 1000])),
+            # the same step also sorts an earlier resource whose same-named key fields hold text
+            'companion': draw(st.booleans())}
 
 
 @st.composite
@@ -153,18 +164,28 @@ def ref_keys(comps, row):
     return tuple(fk), tuple(ek)
 
 
-def run_sort(rows, key, reverse, batch):
+COMPANION_ROWS = [{'_i': 0, 'n1': 'text', 'n2': 'zz', 'n 3': 'text', 'n-4': 'zz', 's': 'b', 'i': 3, 'pl': None},
+                  {'_i': 1, 'n1': 'more', 'n2': 'aa', 'n 3': 'more', 'n-4': 'aa', 's': 'a', 'i': 1, 'pl': None}]
+
+
+def run_sort(rows, key, reverse, batch, companion=False):
     flds = [{'name': '_i', 'type': 'integer'}, {'name': 'n1', 'type': 'any'}, {'name': 'n2', 'type': 'any'},
             {'name': 'n 3', 'type': 'any'}, {'name': 'n-4', 'type': 'any'},
-            {'name': 's', 'type': 'string'}, {'name': 'i', 'type': 'integer'}]
+            {'name': 's', 'type': 'string'}, {'name': 'i', 'type': 'integer'}, {'name': 'pl', 'type': 'any'}]
     pkg = [{'name': 'res1', 'fields': flds, 'rows': rows},
            {'name': 'other', 'fields': [{'name': 'q', 'type': 'integer'}], 'rows': [{'q': 3}, {'q': 1}, {'q': 2}]}]
+    sel = 'res1'
+    if companion:
+        pkg.insert(0, {'name': 'first', 'fields': copy.deepcopy(flds), 'rows': copy.deepcopy(COMPANION_ROWS)})
+        sel = ['first', 'res1']
     desc = gen.descriptor_of(pkg)
     kw = {} if batch is None else {'batch_size': batch}
-    d, out = run_steps([dataflows.sort_rows(key, resources='res1', reverse=reverse, **kw)], desc, gen.tables_of(pkg))
-    if out[1] != [{'q': 3}, {'q': 1}, {'q': 2}]:
-        raise Violation('bystander-changed', {'got': out[1]})
-    return out[0]
+    d, out = run_steps([dataflows.sort_rows(key, resources=sel, reverse=reverse, **kw)], desc, gen.tables_of(pkg))
+    if out[-1] != [{'q': 3}, {'q': 1}, {'q': 2}]:
+        raise Violation('bystander-changed', {'got': out[-1]})
+    if companion and sorted(r['_i'] for r in out[0]) != [0, 1]:
+        raise Violation('companion-resource-not-a-permutation', {'got': out[0]})
+    return out[-2]
 
 
 def check(case, ctx):
@@ -177,7 +198,10 @@ def check(case, ctx):
     keyed = [ref_keys(comps, r) for r in rows]
     classes = [case['size'], 'key:' + case['kind']]
     try:
-        fwd = run_sort(rows, build_key(case['kind'], case['spec']), False, case['batch'])
+        comp = bool(case.get('companion'))
+        if comp:
+            classes.append('with-text-keyed-companion-resource')
+        fwd = run_sort(rows, build_key(case['kind'], case['spec']), False, case['batch'], comp)
         rev = run_sort(rows, build_key(case['kind'], case['spec']), True, case['batch'])
         fwd2 = run_sort(rows, build_key(case['kind'], case['spec']), False, case['batch2']) \
             if case['batch2'] != case['batch'] else None
@@ -190,8 +214,9 @@ def check(case, ctx):
         if sorted(r['_i'] for r in out) != list(range(len(rows))):
             raise Violation('not-a-permutation', {'direction': name, 'n_in': len(rows), 'n_out': len(out)})
         for r in out:
-            if r != rows[r['_i']]:
-                raise Violation('row-altered', {'got': r, 'expected': rows[r['_i']]})
+            e = rows[r['_i']]
+            if r != e or any(type(r[k]) is not type(e[k]) for k in e):
+                raise Violation('row-altered', {'got': r, 'expected': e})
     # 2. order + stability on the forward output
     for a, b in zip(fwd, fwd[1:]):
         fa, ea = keyed[a['_i']]
